@@ -24,8 +24,10 @@ import (
 	"os"
 	"reflect"
 	"regexp"
+	"runtime"
 	"strconv"
 	"strings"
+	"sync"
 
 	"github.com/ctessum/geom/proj"
 
@@ -134,7 +136,7 @@ func impl() {
 				res = implClosures(p)
 				return
 			}
-			if kind != "rt" {
+			if kind != "rt" && kind != "cc" {
 				res = "badline"
 				return
 			}
@@ -201,6 +203,9 @@ func impl() {
 					hexf(px), hexf(py), errTok(e2), hexf(rx), hexf(ry), errTok(e3))
 			}
 			fmt.Fprintf(&sb, " T %s %s H %s R%s", b2s(nilAB), b2s(nilBA), b2s(hist), rs.String())
+			if kind == "cc" {
+				sb.WriteString(concurrent(p, n, tAB, tBA))
+			}
 			res = sb.String()
 		})
 		if pan != "" {
@@ -208,6 +213,73 @@ func impl() {
 		}
 		fmt.Fprintf(out, "%s => %s\n", line, res)
 	})
+}
+
+// concurrent: the line's ONE forward and ONE inverse transformer are shared by 8 goroutines
+// (GOMAXPROCS >= 8), each pushing its own positions through project / un-project / project again,
+// 200 times over; every answer is compared bit for bit with the sequential answer for the same
+// input.  Only emitted for definition pairs for which the unchanged tree performs no write per call
+// (tmerc, lcc, aea, merc, longlat with every parameter given and no datum shift: checked with
+// `go build -race`, see notes/C08.md).  Returns " X <differing answers> <first differing position>".
+func concurrent(p *vproto.Parser, n int, tAB, tBA proj.Transformer) string {
+	if tAB == nil || tBA == nil {
+		return " X 0 -"
+	}
+	if runtime.GOMAXPROCS(0) < 8 {
+		runtime.GOMAXPROCS(8)
+	}
+	// the positions were consumed by the sequential pass: read them again from the token list
+	pts := make([][2]float64, n)
+	q := vproto.Parser{T: p.T, I: 5}
+	for i := range pts {
+		pts[i] = [2]float64{q.F(), q.F()}
+	}
+	type ans struct{ v [6]uint64; e [3]bool }
+	one := func(pt [2]float64) ans {
+		qx, qy, e1 := tAB(pt[0], pt[1])
+		px, py, e2 := tBA(qx, qy)
+		rx, ry, e3 := tAB(px, py)
+		return ans{[6]uint64{math.Float64bits(qx), math.Float64bits(qy), math.Float64bits(px), math.Float64bits(py),
+			math.Float64bits(rx), math.Float64bits(ry)}, [3]bool{e1 == nil, e2 == nil, e3 == nil}}
+	}
+	seq := make([]ans, n)
+	for i, pt := range pts {
+		seq[i] = one(pt)
+	}
+	const G, reps = 8, 200
+	var mu sync.Mutex
+	bad, first := 0, -1
+	var wg sync.WaitGroup
+	for k := 0; k < G; k++ {
+		wg.Add(1)
+		go func(k int) {
+			defer wg.Done()
+			defer func() { // a panic inside a goroutine would kill the harness
+				if e := recover(); e != nil {
+					mu.Lock()
+					bad++
+					mu.Unlock()
+				}
+			}()
+			for r := 0; r < reps; r++ {
+				for i := k; i < n; i += G {
+					if one(pts[i]) != seq[i] {
+						mu.Lock()
+						bad++
+						if first < 0 {
+							first = i
+						}
+						mu.Unlock()
+					}
+				}
+			}
+		}(k)
+	}
+	wg.Wait()
+	if bad == 0 {
+		return " X 0 -"
+	}
+	return fmt.Sprintf(" X %d position-%d-(%s,%s)", bad, first, g(pts[max(first, 0)][0]), g(pts[max(first, 0)][1]))
 }
 
 // implClosures: `cl <class> <B def> <n> (<lon> <lat>)*n` (radians, in B's own frame).
@@ -757,6 +829,62 @@ func gen(seed uint64, tier string) {
 		}
 		emit(out, class("wkt", wgs, b), wgs, b, ps)
 		emitClosures(out, "wkt", b, ps, 0)
+	}
+	// concurrent use of ONE transformer pair: only definitions for which the unchanged tree performs no
+	// write per call (every parameter given; no datum shift: both sides on the same ellipsoid, without
+	// datum or both +datum=WGS84)
+	nConc := 30
+	if tier == "thorough" {
+		nConc = 120
+	}
+	for _, name := range []string{"tmerc", "lcc", "aea", "merc", "longlat"} {
+		for i := 0; i < nConc; i++ {
+			el := " +ellps=" + ellipsoids[r.Intn(len(ellipsoids)-1)] // not "sphere": keep it simple
+			if r.Intn(3) == 0 {
+				el = " +ellps=WGS84 +datum=WGS84"
+			}
+			b := crs{def: "+proj=" + name, tags: []string{"cc"}}
+			l0 := lon0(r)
+			var reg region
+			switch name {
+			case "tmerc":
+				la0 := rnd((r.Float()-0.5)*160, 3)
+				b.def += " +lat_0=" + g(la0) + " +lon_0=" + g(l0) + " +k_0=" + g(k0(r)) + " +x_0=" + g(falseOrigin(r)) + " +y_0=" + g(falseOrigin(r))
+				reg = region{dlon: 3.5, lon0: l0, latLo: -84, latHi: 84}
+			case "merc":
+				b.def += " +lon_0=" + g(l0) + " +k_0=" + g(k0(r)) + " +x_0=" + g(falseOrigin(r)) + " +y_0=" + g(falseOrigin(r))
+				reg = region{dlon: 179, lon0: l0, latLo: -85, latHi: 85}
+			case "lcc", "aea":
+				p1, p2 := parallels(r)
+				b.def += " +lat_1=" + g(p1) + " +lat_2=" + g(p2) + " +lat_0=" + g(rnd((r.Float()-0.5)*120, 3)) + " +lon_0=" + g(l0) +
+					" +x_0=" + g(falseOrigin(r)) + " +y_0=" + g(falseOrigin(r))
+				if name == "lcc" {
+					b.def += " +k_0=" + g(k0(r))
+				}
+				if p1+p2 > 0 {
+					reg = region{dlon: 170, lon0: l0, latLo: -50, latHi: 88}
+				} else {
+					reg = region{dlon: 170, lon0: l0, latLo: -88, latHi: 50}
+				}
+			case "longlat":
+				reg = region{absolute: true, lonLo: -180, lonHi: 180, latLo: -89, latHi: 89}
+			}
+			b.def += el
+			if name != "longlat" && r.Intn(3) == 0 {
+				b.def += " +units=us-ft"
+			}
+			if r.Intn(4) == 0 {
+				b.pm = pmDeg["paris"]
+				b.def += " +pm=paris"
+			}
+			a := crs{def: "+proj=longlat" + el, tags: []string{"gS"}}
+			ps := positions(r, reg, a, b, 32)
+			fmt.Fprintf(out, "cc %s %s %s %d", class(name, a, b), strings.ReplaceAll(a.def, " ", "~"), strings.ReplaceAll(b.def, " ", "~"), len(ps))
+			for _, p := range ps {
+				fmt.Fprintf(out, " %s %s", hexf(p[0]), hexf(p[1]))
+			}
+			fmt.Fprintln(out)
+		}
 	}
 	names := []string{"longlat", "merc", "lcc", "aea", "eqdc", "tmerc", "utm", "krovak"}
 	for _, name := range names {
